@@ -11,8 +11,9 @@
       are bijections with clean names, mask tables well-formed); `genTables_wf` discharges them for the
       registry regenerated from the Go tree, through the C17 theorems;
     * `R : Rfc3339` with `R.Lawful` — `time.Parse(RFC3339, time.Format(RFC3339, s)) = s` for whole
-      seconds within years 1..9999 (trusted standard library); `toyR_lawful` shows the hypothesis is
-      satisfiable;
+      seconds whose local year is within 0..9999 (`R.inYears`, the test the readers apply; it contains
+      the years 1..9999 of the property) (trusted standard library); `toyR_lawful` shows the hypothesis
+      is satisfiable;
     * `H : Hints` — what a typed caller tells the reader about enumerations and masks; the generic
       decoder `ttlv.Value` is `noHints`.
   Trusted and outside the model: the tokenisers and escapers of encoding/xml and encoding/json (a text
@@ -34,7 +35,7 @@ def genTables : Tables :=
 
 /-- … satisfies the hypotheses of every theorem below (by the C17 theorems). -/
 theorem genTables_wf : genTables.WF :=
-  { tags := C17.tags_bijective, tagsClean := C17.tags_clean, enums := C17.enums_bijective,
+  { newTags := rfl, tags := C17.tags_bijective, tagsClean := C17.tags_clean, enums := C17.enums_bijective,
     masks := C17.masks_ok }
 
 /-- a toy date syntax (`T` followed by the decimal seconds) satisfying `Rfc3339.Lawful`: the hypothesis
@@ -43,13 +44,21 @@ def toyR : Rfc3339 :=
   { format := fun s => 84 :: itoa s
     parse := fun t => match t with
       | 84 :: r => parseInt 10 64 r
-      | _ => none }
+      | _ => none
+    inYears := fun v => decide (minEpoch0 ≤ v) && decide (v ≤ maxEpoch) }
 
 theorem toyR_lawful : toyR.Lawful where
-  roundtrip s h1 h2 := by
-    unfold minEpoch at h1; unfold maxEpoch at h2
+  roundtrip s h := by
+    have h' : -62167219200 ≤ s ∧ s ≤ 253402300799 := by
+      have h2 : (decide (minEpoch0 ≤ s) && decide (s ≤ maxEpoch)) = true := h
+      rw [Bool.and_eq_true] at h2
+      exact ⟨of_decide_eq_true h2.1, of_decide_eq_true h2.2⟩
     exact parseInt_itoa (bits := 64) (by simp; omega) (by simp; omega)
-  no0x s _ _ rest e := by simp [toyR] at e
+  no0x s _ rest e := by simp [toyR] at e
+  years s h1 h2 := by
+    unfold minEpoch at h1
+    have : -62167219200 ≤ s := by omega
+    simp [toyR, minEpoch0, this, h2]
 
 /-! ## 1. numerals (`strconv`, `encoding/hex` as the library uses them) -/
 
@@ -93,7 +102,7 @@ theorem xml_long (v : Int) (h1 : -9223372036854775808 ≤ v) (h2 : v ≤ 9223372
   xLong_itoa (int64Ok_iff.mpr ⟨h1, h2⟩)
 
 /-- BigInteger: every integer (minimal two's complement, padding 1, upper-case hex). -/
-theorem xml_big (v : Int) : bigOfHex (hexUp (Key.bigBytes v 1)) = .ok v := bigOfHex_xml v
+theorem xml_big (v : Int) : bigOfHex (hexUp (bigBytes v 1)) = .ok v := bigOfHex_xml v
 
 /-- Enumeration: every uint32 of every enumeration tag of the generated registry, named or not. -/
 theorem xml_enum (g : Int) (v : Nat) (hv : v < 2 ^ 32) :
@@ -121,7 +130,11 @@ theorem xml_text (s : Bytes) : xText (strOfBytes s) = .ok s := xText_str s
 
 /-- DateTime: every second of years 1..9999, under the RFC 3339 hypothesis. -/
 theorem xml_date {R : Rfc3339} (hR : R.Lawful) (s : Int) (h1 : minEpoch ≤ s) (h2 : s ≤ maxEpoch) :
-    xDate R (R.format s) = .ok s := xDate_format hR h1 h2
+    xDate R (R.format s) = .ok s := xDate_format hR (hR.years s h1 h2)
+
+/-- … more generally every instant that passes the readers' year test (local years 0..9999). -/
+theorem xml_date_inYears {R : Rfc3339} (hR : R.Lawful) (s : Int) (h : R.inYears s = true) :
+    xDate R (R.format s) = .ok s := xDate_format hR h
 
 /-- Interval: every uint32. -/
 theorem xml_interval (n : Nat) (h : n < 2 ^ 32) : xInterval (utoa n) = .ok n := xInterval_utoa h
@@ -160,7 +173,7 @@ theorem json_bytes (s : Bytes) : jBytes (some (.str (hexUp s))) = .ok s := jByte
 theorem json_text (s : Bytes) : jText (some (.str (strOfBytes s))) = .ok s := jText_str s
 
 theorem json_date {R : Rfc3339} (hR : R.Lawful) (s : Int) (h1 : minEpoch ≤ s) (h2 : s ≤ maxEpoch) :
-    jDate R (some (.str (R.format s))) = .ok s := jDate_format hR h1 h2
+    jDate R (some (.str (R.format s))) = .ok s := jDate_format hR (hR.years s h1 h2)
 
 theorem json_interval (n : Nat) (h : n < 2 ^ 32) : jInterval (some (.num (n : Int) true)) = .ok n :=
   jInterval_num h
@@ -168,7 +181,7 @@ theorem json_interval (n : Nat) (h : n < 2 ^ 32) : jInterval (some (.num (n : In
 /-- the three encodings of one big integer — binary value bytes, XML text, JSON value — all decode to
     it. -/
 theorem big_three_encodings (T : Tables) (R : Rfc3339) (t v : Int) :
-    bytesToBigInt (encodeBig v) = v ∧ bigOfHex (hexUp (Key.bigBytes v 1)) = .ok v ∧
+    bytesToBigInt (encodeBig v) = v ∧ bigOfHex (hexUp (bigBytes v 1)) = .ok v ∧
       jBig (some (jsonValue T R (.big t v))) = .ok v :=
   ⟨C03.bytesToBigInt_encodeBig v, bigOfHex_xml v, jBig_value⟩
 
@@ -204,14 +217,14 @@ theorem json_number_threshold_big (T : Tables) (R : Rfc3339) (t v : Int) :
 /-- … so EVERY number the JSON writer emits, for any representable scalar, is an integer literal of
     magnitude below 2^53: exactly representable as an IEEE 754 double. -/
 theorem json_numbers_exact (T : Tables) (R : Rfc3339) (H : Hints) (x : XItem)
-    (hx : x.representable H = true) (n : Int) (il : Bool) (h : jsonValue T R x = .num n il) :
+    (hx : x.representable R H = true) (n : Int) (il : Bool) (h : jsonValue T R x = .num n il) :
     il = true ∧ -(2 : Int) ^ 53 < n ∧ n < (2 : Int) ^ 53 := by
   have e : (2 : Int) ^ 53 = 9007199254740992 := by decide
   rw [e]
   cases x with
   | struct t cs => simp [jsonValue] at h
   | int t v =>
-    simp only [XItem.representable, Bool.and_eq_true] at hx
+    simp only [XItem.representable, XItem.representableG, Bool.and_eq_true] at hx
     have ⟨h1, h2⟩ := int32Ok_iff.mp hx.1.2
     simp only [jsonValue, JVal.num.injEq] at h
     obtain ⟨rfl, rfl⟩ := h
@@ -238,7 +251,7 @@ theorem json_numbers_exact (T : Tables) (R : Rfc3339) (H : Hints) (x : XItem)
   | bytes t s => simp [jsonValue] at h
   | date t v => simp [jsonValue] at h
   | interval t v =>
-    simp only [XItem.representable, Bool.and_eq_true, decide_eq_true_eq] at hx
+    simp only [XItem.representable, XItem.representableG, Bool.and_eq_true, decide_eq_true_eq] at hx
     simp only [jsonValue, JVal.num.injEq] at h
     obtain ⟨rfl, rfl⟩ := h
     exact ⟨rfl, by omega, by omega⟩
@@ -248,62 +261,62 @@ theorem json_numbers_exact (T : Tables) (R : Rfc3339) (H : Hints) (x : XItem)
 /-- XML: for every tree of the representable domain (any depth, any width) the reader decodes what the
     writer wrote to the very same tree, annotations included. -/
 theorem xml_roundtrip {T : Tables} (hT : T.WF) {R : Rfc3339} (hR : R.Lawful) {H : Hints} (t : XItem)
-    (h : t.Representable H) : xmlRead T R H (xmlWrite T R t) = .ok t :=
+    (h : t.Representable R H) : xmlRead T R H (xmlWrite T R t) = .ok t :=
   xmlRead_write hT hR t h
 
 /-- JSON: likewise. -/
 theorem json_roundtrip {T : Tables} (hT : T.WF) {R : Rfc3339} (hR : R.Lawful) {H : Hints} (t : XItem)
-    (h : t.Representable H) : jsonRead T R H (jsonWrite T R t) = .ok t :=
+    (h : t.Representable R H) : jsonRead T R H (jsonWrite T R t) = .ok t :=
   jsonRead_write hT hR t h
 
 /-- XML carries the same information as the tree the binary encoder sees … -/
 theorem xml_equiv {T : Tables} (hT : T.WF) {R : Rfc3339} (hR : R.Lawful) {H : Hints} (t : XItem)
-    (h : t.Representable H) : XItem.erase <$> xmlRead T R H (xmlWrite T R t) = .ok t.erase := by
+    (h : t.Representable R H) : XItem.erase <$> xmlRead T R H (xmlWrite T R t) = .ok t.erase := by
   rw [xml_roundtrip hT hR t h]; rfl
 
 /-- … so the binary TTLV encoding of the decoded message is byte-identical to the original's. -/
 theorem xml_binary_identical {T : Tables} (hT : T.WF) {R : Rfc3339} (hR : R.Lawful) {H : Hints} (t : XItem)
-    (h : t.Representable H) :
+    (h : t.Representable R H) :
     (fun t' => enc t'.erase) <$> xmlRead T R H (xmlWrite T R t) = .ok (enc t.erase) := by
   rw [xml_roundtrip hT hR t h]; rfl
 
 theorem json_equiv {T : Tables} (hT : T.WF) {R : Rfc3339} (hR : R.Lawful) {H : Hints} (t : XItem)
-    (h : t.Representable H) : XItem.erase <$> jsonRead T R H (jsonWrite T R t) = .ok t.erase := by
+    (h : t.Representable R H) : XItem.erase <$> jsonRead T R H (jsonWrite T R t) = .ok t.erase := by
   rw [json_roundtrip hT hR t h]; rfl
 
 theorem json_binary_identical {T : Tables} (hT : T.WF) {R : Rfc3339} (hR : R.Lawful) {H : Hints}
-    (t : XItem) (h : t.Representable H) :
+    (t : XItem) (h : t.Representable R H) :
     (fun t' => enc t'.erase) <$> jsonRead T R H (jsonWrite T R t) = .ok (enc t.erase) := by
   rw [json_roundtrip hT hR t h]; rfl
 
 /-- the three encodings carry exactly the same information: XML and JSON of one tree decode to trees
     with one and the same binary encoding, the original's. -/
 theorem three_encodings_agree {T : Tables} (hT : T.WF) {R : Rfc3339} (hR : R.Lawful) {H : Hints}
-    (t : XItem) (h : t.Representable H) :
+    (t : XItem) (h : t.Representable R H) :
     ∃ tx tj, xmlRead T R H (xmlWrite T R t) = .ok tx ∧ jsonRead T R H (jsonWrite T R t) = .ok tj ∧
       enc tx.erase = enc t.erase ∧ enc tj.erase = enc t.erase :=
   ⟨t, t, xml_roundtrip hT hR t h, json_roundtrip hT hR t h, rfl, rfl⟩
 
 /-- instantiated: the generated registry, the generic decoder `ttlv.Value`. -/
-theorem xml_generic_value {R : Rfc3339} (hR : R.Lawful) (t : XItem) (h : t.Representable noHints) :
+theorem xml_generic_value {R : Rfc3339} (hR : R.Lawful) (t : XItem) (h : t.Representable R noHints) :
     xmlRead genTables R noHints (xmlWrite genTables R t) = .ok t :=
   xml_roundtrip genTables_wf hR t h
 
-theorem json_generic_value {R : Rfc3339} (hR : R.Lawful) (t : XItem) (h : t.Representable noHints) :
+theorem json_generic_value {R : Rfc3339} (hR : R.Lawful) (t : XItem) (h : t.Representable R noHints) :
     jsonRead genTables R noHints (jsonWrite genTables R t) = .ok t :=
   json_roundtrip genTables_wf hR t h
 
 /-- the round trip holds whatever FOLLOWS the element in the token stream and for any sufficient fuel
     (what the typed decoders of the plan layer rely on). -/
 theorem xml_roundtrip_in_context {T : Tables} (hT : T.WF) {R : Rfc3339} (hR : R.Lawful) {H : Hints}
-    (t : XItem) (h : t.Representable H) (fuel : Nat) (hf : t.size ≤ fuel) (rest : List Tok) :
+    (t : XItem) (h : t.Representable R H) (fuel : Nat) (hf : t.size ≤ fuel) (rest : List Tok) :
     xDecodeValue T R H fuel (after ((xmlWrite T R t).toks ++ rest)) t.tag = .ok (t, after rest) :=
-  xDecodeValue_write hT hR t fuel rest hf h
+  xDecodeValue_write hT hR t false fuel rest hf h
 
 theorem json_roundtrip_in_context {T : Tables} (hT : T.WF) {R : Rfc3339} (hR : R.Lawful) {H : Hints}
-    (t : XItem) (h : t.Representable H) (fuel : Nat) (hf : t.size ≤ fuel) (more : List JVal) :
+    (t : XItem) (h : t.Representable R H) (fuel : Nat) (hf : t.size ≤ fuel) (more : List JVal) :
     jDecodeValue T R H fuel ⟨jsonWrite T R t :: more⟩ t.tag = .ok (t, ⟨more⟩) :=
-  jDecodeValue_write hT hR t fuel more hf h
+  jDecodeValue_write hT hR t false fuel more hf h
 
 /-! ## 6. non-vacuity -/
 
@@ -336,8 +349,8 @@ def sampleHints : Hints := fun t =>
 def sampleTyped : XItem :=
   .struct 0x420008 [.mask 0x42002C 0 (-2147483644), .enum 0x42000B 0x420028 3]
 
-example : sample.Representable noHints := by unfold XItem.Representable; decide +kernel
-example : sampleTyped.Representable sampleHints := by unfold XItem.Representable; decide +kernel
+example : sample.Representable toyR noHints := by unfold XItem.Representable; decide +kernel
+example : sampleTyped.Representable toyR sampleHints := by unfold XItem.Representable; decide +kernel
 
 example : binIs (xmlRead genTables toyR noHints (xmlWrite genTables toyR sample)) (enc sample.erase) = true := by
   decide +kernel
@@ -368,21 +381,30 @@ example : binIs (xmlRead genTables toyR noHints
 
 The readers accept more than the writers produce (hexadecimal integers, decimal enumerations,
 `strconv.ParseBool` forms, lower-case hexadecimal, numbers or strings in JSON, masks with mixed names /
-numbers / repeated separators, `TTLV tag=` for named tags, duplicated attributes and members, unread
-children, …).  Whatever they accept, the tree they return is NORMALISED (`read_normal`): every value in
-the range of its Go type, every annotation the reader's own hint.  Hence, if its tags are 24-bit KMIP
-tags and its dates lie in years 1..9999, it is representable, and re-encoding it is a fixed point:
-the writer's document is read back as the same tree (`xml_fixpoint`, `json_fixpoint`), so a second hop
-changes nothing.  WITHOUT the side condition on tags the statement is false of the model — and of the
-library: `Tag()` parses `0x…` with `ParseInt(·, 16, 32)`, so `tag="0x-1"` is accepted as tag −1, which
-is written back as `0xFFFFFFFFFFFFFFFF`, which reads as tag 0 (`xml_fixpoint_full_false`). -/
+numbers / repeated separators, `TTLV tag=` for named tags, RFC 3339 with zone offsets, `0x` epochs,
+duplicated attributes and members, unread children, …).  Whatever they accept, the tree they return
+lies in the domain of the round-trip theorems (`xml_read_representable`): every value in the range of its
+Go type, every annotation the reader's own hint, every tag a 24-bit KMIP tag — 0 only at the root, for a
+top-level element without a usable tag —, every date within what `Format` can express.  Hence
+re-encoding ANY accepted document is a fixed point: the writer's document is read back as the very same
+tree, so a second hop changes nothing (`xml_fixpoint_full`, `json_fixpoint_full`), and the tree can be
+carried over to the other text encoding (`xml_to_json`, `json_to_xml`).
 
+This holds of the readers since /repo a1c0e70 (tag text `0x…` = non-zero 24-bit `ParseUint`) and df9dac3
+(the year test after `.Local()`).  The OLD readers — `oldTags := true`, resp. an `Rfc3339` whose `inYears`
+accepts everything — violate it: `old_tag_fixpoint_false`, `old_date_fixpoint_false`. -/
+
+theorem gen_tag_vals : (Gen.tagByName.all fun p => decide (p.2 < 16777216)) = true := by decide +kernel
 theorem gen_enum_vals :
     (Gen.enums.all fun e => e.2.2.all fun p => decide (p.2 < 4294967296)) = true := by decide +kernel
 theorem gen_mask_vals :
     (Gen.masks.all fun m => m.2.2.all fun p => decide (p.2 < 4294967296)) = true := by decide +kernel
 
 theorem genTables_bounded : genTables.Bounded where
+  newTags := rfl
+  tagVals p hp := by
+    have := List.all_eq_true.mp gen_tag_vals p hp
+    simpa using this
   enumVals e he p hp := by
     have := List.all_eq_true.mp (List.all_eq_true.mp gen_enum_vals e he) p hp
     simpa using this
@@ -390,68 +412,96 @@ theorem genTables_bounded : genTables.Bounded where
     have := List.all_eq_true.mp (List.all_eq_true.mp gen_mask_vals m hm) p hp
     simpa using this
 
-/-- what the XML reader returns is normalised, whatever the document. -/
-theorem xml_read_normal {T : Tables} (hB : T.Bounded) {R : Rfc3339} {H : Hints} (e : XElem) (t : XItem)
-    (h : xmlRead T R H e = .ok t) : t.normal H = true :=
-  xmlReadToks_normal hB h
+/-- what the XML reader returns lies in the (root) representable domain, whatever the document. -/
+theorem xml_read_representable {T : Tables} (hB : T.Bounded) {R : Rfc3339} {H : Hints} (e : XElem)
+    (t : XItem) (h : xmlRead T R H e = .ok t) : t.Representable0 R H :=
+  xmlReadToks_rep hB h
 
-theorem json_read_normal {T : Tables} (hB : T.Bounded) {R : Rfc3339} {H : Hints} (j : JVal) (t : XItem)
-    (h : jsonRead T R H j = .ok t) : t.normal H = true :=
-  jsonRead_normal hB h
+theorem json_read_representable {T : Tables} (hB : T.Bounded) {R : Rfc3339} (hR : R.Lawful) {H : Hints}
+    (j : JVal) (t : XItem) (h : jsonRead T R H j = .ok t) : t.Representable0 R H :=
+  jsonRead_rep hB hR h
 
-/-- a normalised tree whose tags and dates are in the domain is representable. -/
-theorem representable_of_normal {H : Hints} (t : XItem) (hn : t.normal H = true) (hd : t.inDomain = true) :
-    t.Representable H :=
-  rep_of_normal H t hn hd
+/-- the round trips hold on the root domain too (root tag 0 is written `tag="0x000000"`, which reads 0). -/
+theorem xml_roundtrip0 {T : Tables} (hT : T.WF) {R : Rfc3339} (hR : R.Lawful) {H : Hints} (t : XItem)
+    (h : t.Representable0 R H) : xmlRead T R H (xmlWrite T R t) = .ok t :=
+  xmlRead_write hT hR t h
 
-/-- XML: re-encoding ANY accepted document whose decoded tags / dates are in the domain is a fixed point
-    (the decoded tree is read back from its own re-encoding, so the second re-encoding is the first). -/
-theorem xml_fixpoint {T : Tables} (hT : T.WF) (hB : T.Bounded) {R : Rfc3339} (hR : R.Lawful) {H : Hints}
-    (e : XElem) (t : XItem) (h : xmlRead T R H e = .ok t) (hd : t.inDomain = true) :
-    xmlRead T R H (xmlWrite T R t) = .ok t :=
-  xml_roundtrip hT hR t (rep_of_normal H t (xml_read_normal hB e t h) hd)
+theorem json_roundtrip0 {T : Tables} (hT : T.WF) {R : Rfc3339} (hR : R.Lawful) {H : Hints} (t : XItem)
+    (h : t.Representable0 R H) : jsonRead T R H (jsonWrite T R t) = .ok t :=
+  jsonRead_write hT hR t h
 
-theorem json_fixpoint {T : Tables} (hT : T.WF) (hB : T.Bounded) {R : Rfc3339} (hR : R.Lawful) {H : Hints}
-    (j : JVal) (t : XItem) (h : jsonRead T R H j = .ok t) (hd : t.inDomain = true) :
+/-- C18 for the XML back end, IN FULL: re-encoding ANY accepted document is a fixed point — the decoded
+    tree is read back from its own re-encoding, so the second re-encoding is the first. -/
+theorem xml_fixpoint_full {T : Tables} (hT : T.WF) (hB : T.Bounded) {R : Rfc3339} (hR : R.Lawful) {H : Hints}
+    (e : XElem) (t : XItem) (h : xmlRead T R H e = .ok t) : xmlRead T R H (xmlWrite T R t) = .ok t :=
+  xml_roundtrip0 hT hR t (xml_read_representable hB e t h)
+
+/-- C18 for the JSON back end, in full. -/
+theorem json_fixpoint_full {T : Tables} (hT : T.WF) (hB : T.Bounded) {R : Rfc3339} (hR : R.Lawful)
+    {H : Hints} (j : JVal) (t : XItem) (h : jsonRead T R H j = .ok t) :
     jsonRead T R H (jsonWrite T R t) = .ok t :=
-  json_roundtrip hT hR t (rep_of_normal H t (json_read_normal hB j t h) hd)
+  json_roundtrip0 hT hR t (json_read_representable hB hR j t h)
 
 /-- cross-encoding: what one text reader accepted is read back identically from the OTHER text
-    encoding and has one binary encoding. -/
+    encoding (and has one binary encoding, `enc t.erase`). -/
 theorem xml_to_json {T : Tables} (hT : T.WF) (hB : T.Bounded) {R : Rfc3339} (hR : R.Lawful) {H : Hints}
-    (e : XElem) (t : XItem) (h : xmlRead T R H e = .ok t) (hd : t.inDomain = true) :
-    jsonRead T R H (jsonWrite T R t) = .ok t :=
-  json_roundtrip hT hR t (rep_of_normal H t (xml_read_normal hB e t h) hd)
+    (e : XElem) (t : XItem) (h : xmlRead T R H e = .ok t) : jsonRead T R H (jsonWrite T R t) = .ok t :=
+  json_roundtrip0 hT hR t (xml_read_representable hB e t h)
 
 theorem json_to_xml {T : Tables} (hT : T.WF) (hB : T.Bounded) {R : Rfc3339} (hR : R.Lawful) {H : Hints}
-    (j : JVal) (t : XItem) (h : jsonRead T R H j = .ok t) (hd : t.inDomain = true) :
-    xmlRead T R H (xmlWrite T R t) = .ok t :=
-  xml_roundtrip hT hR t (rep_of_normal H t (json_read_normal hB j t h) hd)
+    (j : JVal) (t : XItem) (h : jsonRead T R H j = .ok t) : xmlRead T R H (xmlWrite T R t) = .ok t :=
+  xml_roundtrip0 hT hR t (json_read_representable hB hR j t h)
+
+/-- instantiated: generated registry, generic decoder. -/
+theorem xml_fixpoint_generic {R : Rfc3339} (hR : R.Lawful) (e : XElem) (t : XItem)
+    (h : xmlRead genTables R noHints e = .ok t) :
+    xmlRead genTables R noHints (xmlWrite genTables R t) = .ok t :=
+  xml_fixpoint_full genTables_wf genTables_bounded hR e t h
+
+theorem json_fixpoint_generic {R : Rfc3339} (hR : R.Lawful) (j : JVal) (t : XItem)
+    (h : jsonRead genTables R noHints j = .ok t) :
+    jsonRead genTables R noHints (jsonWrite genTables R t) = .ok t :=
+  json_fixpoint_full genTables_wf genTables_bounded hR j t h
+
+/-! ### the old readers, and non-vacuity -/
 
 /-- observable of a tree with decidable equality: the token stream of its XML encoding. -/
-def obs (t : XItem) : List Tok := (xmlWrite genTables toyR t).toks
+def obs (T : Tables) (R : Rfc3339) (t : XItem) : List Tok := (xmlWrite T R t).toks
 
-/-- "re-encoding the accepted document `e` is stable under a second hop". -/
-def stableXml (e : XElem) : Bool :=
-  match xmlRead genTables toyR noHints e with
+/-- "re-encoding the accepted document `e` is stable under a second hop" (true when `e` is rejected). -/
+def stableXml (T : Tables) (R : Rfc3339) (e : XElem) : Bool :=
+  match xmlRead T R noHints e with
   | .ok t =>
-    match xmlRead genTables toyR noHints (xmlWrite genTables toyR t) with
-    | .ok t' => obs t' == obs t
+    match xmlRead T R noHints (xmlWrite T R t) with
+    | .ok t' => obs T R t' == obs T R t
     | _ => false
   | _ => true
 
-def stableJson (j : JVal) : Bool :=
-  match jsonRead genTables toyR noHints j with
+def stableJson (T : Tables) (R : Rfc3339) (j : JVal) : Bool :=
+  match jsonRead T R noHints j with
   | .ok t =>
-    match jsonRead genTables toyR noHints (jsonWrite genTables toyR t) with
-    | .ok t' => obs t' == obs t
+    match jsonRead T R noHints (jsonWrite T R t) with
+    | .ok t' => obs T R t' == obs T R t
     | _ => false
   | _ => true
 
-/-- C18 for the text back ends IN FULL (generic decoder, generated registry): every accepted document
-    re-encodes to a fixed point. -/
-def xml_fixpoint_full : Prop := ∀ e : XElem, stableXml e = true
-def json_fixpoint_full : Prop := ∀ j : JVal, stableJson j = true
+/-- every document is stable for the current readers … -/
+theorem stableXml_current {R : Rfc3339} (hR : R.Lawful) (e : XElem) : stableXml genTables R e = true := by
+  unfold stableXml
+  cases h : xmlRead genTables R noHints e with
+  | ok t => simp only; rw [xml_fixpoint_generic hR e t h]; simp
+  | err _ => rfl
+  | panic _ => rfl
+
+theorem stableJson_current {R : Rfc3339} (hR : R.Lawful) (j : JVal) : stableJson genTables R j = true := by
+  unfold stableJson
+  cases h : jsonRead genTables R noHints j with
+  | ok t => simp only; rw [json_fixpoint_generic hR j t h]; simp
+  | err _ => rfl
+  | panic _ => rfl
+
+/-- the readers before /repo a1c0e70. -/
+def oldTagTables : Tables := { genTables with oldTags := true }
 
 /-- `<TTLV tag="0x-1" type="Integer" value="1"/>` -/
 def negTagXml : XElem :=
@@ -461,48 +511,49 @@ def negTagXml : XElem :=
 def negTagJson : JVal :=
   .obj [(sTag, .str [48, 120, 45, 49]), (sType, .str (typeName 2)), (sValue, .num 1 true)]
 
-/-- the full statement is FALSE of the model (and of the library at HEAD): the tag text `0x-1`. -/
-theorem xml_fixpoint_full_false : ¬ xml_fixpoint_full :=
-  fun h => absurd (h negTagXml) (by decide +kernel)
+/-- … but not for the OLD tag parser: `0x-1` was accepted as tag −1, re-encoded as
+    `0xFFFFFFFFFFFFFFFF`, read back as tag 0; the current readers reject the element's tag (it reads 0). -/
+theorem old_tag_fixpoint_false :
+    stableXml oldTagTables toyR negTagXml = false ∧ stableJson oldTagTables toyR negTagJson = false := by
+  decide +kernel
 
-theorem json_fixpoint_full_false : ¬ json_fixpoint_full :=
-  fun h => absurd (h negTagJson) (by decide +kernel)
+/-- an RFC 3339 stand-in with ONE zone-offset text: `9999-12-31T23:59:59-01:00` parses to an instant of
+    year 10000, which `Format` writes as `10000-01-01T00:59:59Z`, which `Parse` rejects. -/
+def zoneText : Str := [57, 57, 57, 57, 45, 49, 50, 45, 51, 49, 84, 50, 51, 58, 53, 57, 58, 53, 57, 45, 48, 49, 58, 48, 48]
+def zoneR (test : Bool) : Rfc3339 :=
+  { format := fun s => if s = 253402304399 then
+        [49, 48, 48, 48, 48, 45, 48, 49, 45, 48, 49, 84, 48, 48, 58, 53, 57, 58, 53, 57, 90] else toyR.format s
+    parse := fun t => if t = zoneText then some 253402304399 else toyR.parse t
+    inYears := fun v => if test then toyR.inYears v else true }
 
-/-- … and TRUE of every document whose decoded tags and dates are in the domain. -/
-theorem xml_fixpoint_partial (e : XElem)
-    (hd : ∀ t, xmlRead genTables toyR noHints e = .ok t → t.inDomain = true) : stableXml e = true := by
-  unfold stableXml
-  cases h : xmlRead genTables toyR noHints e with
-  | ok t =>
-    simp only
-    rw [xml_fixpoint genTables_wf genTables_bounded toyR_lawful e t h (hd t h)]
-    simp
-  | err _ => rfl
-  | panic _ => rfl
+/-- `<TTLV tag="0x540001" type="DateTime" value="9999-12-31T23:59:59-01:00"/>` -/
+def zoneDateXml : XElem :=
+  .mk sTTLV [(sTag, [48, 120, 53, 52, 48, 48, 48, 49]), (sType, typeName 9), (sValue, zoneText)] []
 
-theorem json_fixpoint_partial (j : JVal)
-    (hd : ∀ t, jsonRead genTables toyR noHints j = .ok t → t.inDomain = true) : stableJson j = true := by
-  unfold stableJson
-  cases h : jsonRead genTables toyR noHints j with
-  | ok t =>
-    simp only
-    rw [json_fixpoint genTables_wf genTables_bounded toyR_lawful j t h (hd t h)]
-    simp
-  | err _ => rfl
-  | panic _ => rfl
+/-- the OLD readers (no year test, before /repo df9dac3) accepted the zone-offset date and could not read
+    their own re-encoding of it; the current readers reject it at once. -/
+theorem old_date_fixpoint_false :
+    stableXml genTables (zoneR false) zoneDateXml = false ∧
+      isErr (xmlRead genTables (zoneR true) noHints zoneDateXml) = true := by
+  decide +kernel
 
-/-- non-vacuity: a document in alternative forms is accepted, in the domain, and stable. -/
+/-- non-vacuity: a document in alternative forms is accepted and (by evaluation, too) stable; an
+    unknown top-level element name is accepted with tag 0 and stable. -/
 def altXml : XElem :=
   .mk sTTLV [(sTag, [48, 120, 52, 50, 48, 48, 55, 56])] [
     .mk [79, 112, 101, 114, 97, 116, 105, 111, 110] [(sType, typeName 2), (sValue, [48, 120, 70, 70, 70, 70, 70, 70, 70, 70])] [],
     .mk sTTLV [(sTag, [48, 120, 52, 50, 48, 48, 50, 56]), (sType, typeName 5), (sValue, [51])] []]
 
-def inDomainRes (r : Res XItem) : Bool :=
+def fooXml : XElem := .mk [70, 111, 111] [(sType, typeName 2), (sValue, [49])] []
+
+def isOk (r : Res XItem) : Bool :=
   match r with
-  | .ok t => t.inDomain
+  | .ok _ => true
   | _ => false
 
-example : inDomainRes (xmlRead genTables toyR noHints altXml) = true ∧ stableXml altXml = true := by
+example : isOk (xmlRead genTables toyR noHints altXml) = true ∧ stableXml genTables toyR altXml = true ∧
+    isOk (xmlRead genTables toyR noHints fooXml) = true ∧ stableXml genTables toyR fooXml = true ∧
+    isOk (xmlRead genTables toyR noHints negTagXml) = true ∧ stableXml genTables toyR negTagXml = true := by
   decide +kernel
 
 end Kmip.C04
